@@ -127,3 +127,15 @@ pub proof fn lemma_bits_push(al: Seq<Scalar>, ar: Seq<Scalar>, ov: Seq<u64>, n: 
     ensures bits_ok(al.push(x), ar.push(y), ov, n)
 { reveal(bits_ok); }
 pub proof fn lemma_bits_empty(ov: Seq<u64>, n: int) ensures bits_ok(Seq::empty(), Seq::empty(), ov, n) { reveal(bits_ok); }
+// the d vector and the two vectors entering the inner-product argument
+#[verifier::opaque]
+pub open spec fn dvec_ok(d: Seq<Scalar>, pp: PP) -> bool {
+    &&& d.len() == pp.nm()
+    &&& forall|q: int| 0 <= q < d.len() ==> #[trigger] d[q] == pp.d(q)
+}
+#[verifier::opaque]
+pub open spec fn st0_ok(a: Seq<Scalar>, b: Seq<Scalar>, pp: PP) -> bool {
+    &&& a.len() == pp.nm() && b.len() == pp.nm()
+    &&& forall|q: int| 0 <= q < a.len() ==> #[trigger] a[q] == pp.a0(q)
+    &&& forall|q: int| 0 <= q < b.len() ==> #[trigger] b[q] == pp.b0(q)
+}
